@@ -4,17 +4,26 @@ package chancloser
 
 import (
 	"bytes"
+	"context"
 	"errors"
 	"fmt"
 	"math/rand"
+	"os"
+	"path/filepath"
+	"strings"
 	"testing"
+	"time"
 
+	"github.com/btcsuite/btcd/btcec/v2"
 	"github.com/btcsuite/btcd/btcutil/v2"
 	"github.com/btcsuite/btcd/chaincfg/v2"
+	"github.com/btcsuite/btcd/chainhash/v2"
 	"github.com/btcsuite/btcd/wire/v2"
+	"github.com/lightningnetwork/lnd/chainntnfs"
 	"github.com/lightningnetwork/lnd/channeldb"
 	"github.com/lightningnetwork/lnd/fn/v2"
 	"github.com/lightningnetwork/lnd/internal/verifkit"
+	"github.com/lightningnetwork/lnd/lntypes"
 	"github.com/lightningnetwork/lnd/lnwallet"
 	"github.com/lightningnetwork/lnd/lnwallet/chainfee"
 	"github.com/lightningnetwork/lnd/lnwire"
@@ -299,5 +308,395 @@ func TestVerifC17RbfRound(t *testing.T) {
 			rec["propeq"], rec["txeq"], rec["raweq"], rec["seq"] = txeq, txeq, raweq, seq
 			out.Emit(rec)
 		}
+	}
+}
+
+// ---------------------------------------------------------------------------
+// Multi-round RBF histories over the REAL state machine.
+//
+// Both parties run a real protofsm.StateMachine (RbfChanCloser, as
+// peer.Brontide and the package's rbf harness start it) in the
+// ClosingNegotiation state over a real lnwallet channel pair; the daemon
+// adapters forward closing_complete / closing_sig to the other machine and
+// capture the broadcasts.  TLC-generated round sequences (CoopCloseGen /
+// RbfGSpec): rounds started by either side, fee bumps and drops, the closer
+// moving to another delivery script with its offer (the harness plays a peer
+// that supports changing its address: it rewrites that machine's own
+// LocalDeliveryScript in the shared close terms before the offer).  Recorded
+// per round: what closing_complete / closing_sig announced, both broadcast
+// transactions with the script each output pays.  CoopCloseTrace (RbfOffer,
+// ConformScripts, TermsAgree) judges.
+
+type c17Daemon struct {
+	msgs chan lnwire.Message
+	txs  chan *wire.MsgTx
+}
+
+func (d *c17Daemon) SendMessages(_ btcec.PublicKey, msgs []lnwire.Message) error {
+	for _, m := range msgs {
+		d.msgs <- m
+	}
+	return nil
+}
+
+func (d *c17Daemon) BroadcastTransaction(tx *wire.MsgTx, _ string) error {
+	d.txs <- tx
+	return nil
+}
+
+func (d *c17Daemon) RegisterConfirmationsNtfn(*chainhash.Hash, []byte, uint32, uint32,
+	...chainntnfs.NotifierOption) (*chainntnfs.ConfirmationEvent, error) {
+
+	return &chainntnfs.ConfirmationEvent{Confirmed: make(chan *chainntnfs.TxConfirmation)}, nil
+}
+
+func (d *c17Daemon) RegisterSpendNtfn(*wire.OutPoint, []byte, uint32) (*chainntnfs.SpendEvent, error) {
+	return &chainntnfs.SpendEvent{Spend: make(chan *chainntnfs.SpendDetail)}, nil
+}
+
+type c17Reporter struct{ errs chan error }
+
+func (r *c17Reporter) ReportError(err error) {
+	select {
+	case r.errs <- err:
+	default:
+	}
+}
+
+type c17RbfEv struct {
+	A    string `json:"a"`
+	P    string `json:"p"`
+	X    int64  `json:"x"`
+	Y    int64  `json:"y"`
+	Type string `json:"type"`
+}
+
+type c17Machine struct {
+	sm    *RbfChanCloser
+	d     *c17Daemon
+	rep   *c17Reporter
+	terms *CloseChannelTerms
+	dead  bool
+}
+
+func c17RbfClass(err error) string {
+	switch {
+	case err == nil:
+		return "ok"
+	case errors.Is(err, ErrWrongLocalScript):
+		return "wrongscript"
+	case errors.Is(err, ErrRemoteCannotPay):
+		return "cantpay"
+	case strings.Contains(err.Error(), "cannot afford"):
+		return "unaffordable"
+	case strings.Contains(err.Error(), "transaction has no outputs"):
+		return "nooutputs"
+	default:
+		return "other"
+	}
+}
+
+func TestVerifC17RbfMulti(t *testing.T) {
+	out := verifkit.MustWriter(verifkit.Env("VERIF_OUT", ".") + "/trace.ndjson")
+	defer out.Close()
+	dir := os.Getenv("VERIF_SCHED")
+	files := verifkit.ListFiles(dir, "r_", ".ndjson")
+	if len(files) == 0 {
+		t.Fatalf("no schedules in %q", dir)
+	}
+	types := map[string]channeldb.ChannelType{}
+	for _, x := range c17Legacy {
+		types[x.name] = x.t
+	}
+	bit := func(b bool) int {
+		if b {
+			return 1
+		}
+		return 0
+	}
+	ctx, cancel := context.WithCancel(context.Background())
+	defer cancel()
+
+	for fi, f := range files {
+		evs, err := verifkit.ReadNDJSONInto[c17RbfEv](f)
+		if err != nil {
+			t.Fatal(err)
+		}
+		if len(evs) == 0 || evs[0].A != "Cfg" {
+			t.Fatalf("%s: first event must be Cfg", f)
+		}
+		ctype, ok := types[evs[0].Type]
+		if !ok {
+			t.Fatalf("%s: channel type %q", f, evs[0].Type)
+		}
+		alice, bob, err := lnwallet.CreateTestChannels(t, ctype)
+		if err != nil {
+			t.Fatal(err)
+		}
+		if alice.State().Capacity > 2_000_000 {
+			t.Fatalf("fixture capacity %v: run with the lowered-capacity overlay of lnwallet/test_utils.go",
+				alice.State().Capacity)
+		}
+		// alice (the fixture's initiator) plays the model's opener
+		opener := evs[0].P
+		lcs := map[string]*lnwallet.LightningChannel{opener: alice, c17Other(opener): bob}
+		dustOf := map[string]int64{"A": evs[0].X, "B": evs[0].Y}
+		for p, lc := range lcs {
+			lc.State().LocalChanCfg.DustLimit = btcutil.Amount(dustOf[p])
+			lc.State().RemoteChanCfg.DustLimit = btcutil.Amount(dustOf[c17Other(p)])
+		}
+		views := func() map[string]c17RbfView {
+			m := map[string]c17RbfView{}
+			for p, lc := range lcs {
+				c := lc.State().LocalCommitment
+				m[p] = c17RbfView{int64(c.LocalBalance), int64(c.RemoteBalance), int64(c.CommitFee)}
+			}
+			return m
+		}
+		dust := map[string]map[string]int64{}
+		for p, lc := range lcs {
+			dust[p] = map[string]int64{
+				p:           int64(lc.State().LocalChanCfg.DustLimit),
+				c17Other(p): int64(lc.State().RemoteChanCfg.DustLimit),
+			}
+		}
+		out.Emit(verifkit.Rec{"a": "Reset", "kind": "tx", "type": evs[0].Type, "file": filepath.Base(f),
+			"opener": opener, "anchors": bit(ctype.HasAnchors()), "taproot": 0,
+			"cap": int64(alice.State().Capacity), "dust": dust, "view": views()})
+
+		// three delivery scripts per party (p2wpkh, p2wsh, p2tr)
+		mk := func(prefix []byte, l int, fill byte) []byte {
+			return append(append([]byte{}, prefix...), bytes.Repeat([]byte{fill}, l)...)
+		}
+		b0 := byte(fi % 13)
+		tbl := map[string][][]byte{
+			"A": {mk([]byte{0x00, 0x14}, 20, 0x10+b0), mk([]byte{0x00, 0x20}, 32, 0x30+b0), mk([]byte{0x51, 0x20}, 32, 0x50+b0)},
+			"B": {mk([]byte{0x51, 0x20}, 32, 0x90+b0), mk([]byte{0x00, 0x14}, 20, 0xb0+b0), mk([]byte{0x00, 0x20}, 32, 0xd0+b0)},
+		}
+		lookup := func(script []byte) (string, int64) {
+			for o, ss := range tbl {
+				for i, x := range ss {
+					if bytes.Equal(x, script) {
+						return o, int64(i)
+					}
+				}
+			}
+			return "", -1
+		}
+
+		evs = evs[1:]
+		if len(evs) > 0 && evs[0].A == "Inject" {
+			side, small := evs[0].P, evs[0].X
+			a, b := lcs[side].State(), lcs[c17Other(side)].State()
+			tot := int64(a.LocalCommitment.LocalBalance + a.LocalCommitment.RemoteBalance)
+			a.LocalCommitment.LocalBalance, a.LocalCommitment.RemoteBalance = lnwire.MilliSatoshi(small), lnwire.MilliSatoshi(tot-small)
+			b.LocalCommitment.LocalBalance, b.LocalCommitment.RemoteBalance = lnwire.MilliSatoshi(tot-small), lnwire.MilliSatoshi(small)
+			out.Emit(verifkit.Rec{"a": "Inject", "p": side, "x": small, "view": views()})
+			evs = evs[1:]
+		}
+
+		// the two real state machines, started in ClosingNegotiation as after shutdown + flush
+		ms := map[string]*c17Machine{}
+		for p, lc := range lcs {
+			st := lc.State()
+			c := st.LocalCommitment
+			terms := &CloseChannelTerms{
+				ShutdownScripts: ShutdownScripts{
+					LocalDeliveryScript:  tbl[p][0],
+					RemoteDeliveryScript: tbl[c17Other(p)][0],
+				},
+				ShutdownBalances: ShutdownBalances{LocalBalance: c.LocalBalance, RemoteBalance: c.RemoteBalance},
+			}
+			first := &ClosingNegotiation{
+				PeerState: lntypes.Dual[AsymmetricPeerState]{
+					Local:  &LocalCloseStart{CloseChannelTerms: terms},
+					Remote: &RemoteCloseStart{CloseChannelTerms: terms},
+				},
+				CloseChannelTerms: terms,
+			}
+			env := &Environment{
+				ChainParams:  chaincfg.RegressionNetParams,
+				ChanPeer:     *st.IdentityPub,
+				ChanPoint:    st.FundingOutpoint,
+				ChanID:       lnwire.NewChanIDFromOutPoint(st.FundingOutpoint),
+				Scid:         st.ShortChanID(),
+				ChanType:     st.ChanType,
+				FeeEstimator: c17RbfEstimator{},
+				ChanObserver: c17Observer{},
+				CloseSigner:  lc,
+			}
+			d := &c17Daemon{msgs: make(chan lnwire.Message, 16), txs: make(chan *wire.MsgTx, 16)}
+			rep := &c17Reporter{errs: make(chan error, 4)}
+			sm := protofsm.NewStateMachine(RbfChanCloserCfg{
+				ErrorReporter:      rep,
+				Daemon:             d,
+				InitialState:       first,
+				Env:                env,
+				CustomPollInterval: fn.Some(time.Millisecond),
+			})
+			sm.Start(ctx)
+			ms[p] = &c17Machine{sm: &sm, d: d, rep: rep, terms: terms}
+		}
+		stop := func() {
+			for _, m := range ms {
+				m.sm.Stop()
+			}
+		}
+
+		// localHalf returns the local half of a machine's composite state
+		localHalf := func(m *c17Machine) AsymmetricPeerState {
+			st, err := m.sm.CurrentState()
+			if err != nil {
+				return nil
+			}
+			cn, ok := st.(*ClosingNegotiation)
+			if !ok {
+				return nil
+			}
+			return cn.PeerState.GetForParty(lntypes.Local)
+		}
+		const patience = 15 * time.Second
+
+		for _, e := range evs {
+			if e.A != "RbfM" {
+				t.Fatalf("%s: unexpected event %v", f, e)
+			}
+			closer, closee := e.P, c17Other(e.P)
+			mc, me := ms[closer], ms[closee]
+			fee, k := e.X, e.Y
+
+			rec := verifkit.Rec{"a": "RbfM", "p": closer, "x": fee, "y": 1, "k": k}
+			zero := func() map[string]int64 { return map[string]int64{"A": 0, "B": 0} }
+			neg := func() map[string]int64 { return map[string]int64{"A": -1, "B": -1} }
+			res := map[string]string{"A": "other", "B": "other"}
+			errs := map[string]string{"A": "", "B": ""}
+			has := map[string]map[string]int64{"A": zero(), "B": zero()}
+			val := map[string]map[string]int64{"A": zero(), "B": zero()}
+			sidx := map[string]map[string]int64{"A": neg(), "B": neg()}
+			ann := map[string]int64{"cc_closer": -1, "cc_closee": -1, "cs_closer": -1, "cs_closee": -1}
+			extra, txfee, eng, nout := zero(), zero(), zero(), zero()
+			txs := map[string]*wire.MsgTx{}
+			fatal := false
+
+			func() {
+				// the closer moves to script k with this offer
+				mc.terms.LocalDeliveryScript = tbl[closer][k]
+				before := localHalf(mc)
+				mc.sm.SendEvent(ctx, &SendOfferEvent{TargetFeeRate: chainfee.SatPerVByte(fee)})
+
+				var cc *lnwire.ClosingComplete
+				deadline := time.Now().Add(patience)
+			waitOffer:
+				for {
+					select {
+					case m := <-mc.d.msgs:
+						c, ok := m.(*lnwire.ClosingComplete)
+						if !ok {
+							errs[closer], fatal = fmt.Sprintf("unexpected message %T", m), true
+							return
+						}
+						cc = c
+						break waitOffer
+					case err := <-mc.rep.errs:
+						res[closer], errs[closer] = c17RbfClass(err), err.Error()
+						res[closee], fatal, mc.dead = res[closer], true, true
+						return
+					case <-time.After(2 * time.Millisecond):
+						if ce, ok := localHalf(mc).(*CloseErr); ok && AsymmetricPeerState(ce) != before {
+							res["A"], res["B"] = "cantpay", "cantpay"
+							errs[closer] = ce.ErrState.Error()
+							return
+						}
+						if time.Now().After(deadline) {
+							errs[closer], fatal = "timeout waiting for closing_complete", true
+							return
+						}
+					}
+				}
+				_, ann["cc_closer"] = lookup(cc.CloserScript)
+				_, ann["cc_closee"] = lookup(cc.CloseeScript)
+				rec["ccfee"] = int64(cc.FeeSatoshis)
+
+				me.sm.SendEvent(ctx, &OfferReceivedEvent{SigMsg: *cc})
+				var cs *lnwire.ClosingSig
+				select {
+				case m := <-me.d.msgs:
+					c, ok := m.(*lnwire.ClosingSig)
+					if !ok {
+						errs[closee], fatal = fmt.Sprintf("unexpected message %T", m), true
+						return
+					}
+					cs = c
+				case err := <-me.rep.errs:
+					res[closee], errs[closee] = c17RbfClass(err), err.Error()
+					res[closer], fatal, me.dead = "noreply", true, true
+					return
+				case <-time.After(patience):
+					errs[closee], fatal = "timeout waiting for closing_sig", true
+					return
+				}
+				select {
+				case tx := <-me.d.txs:
+					res[closee], txs[closee] = "ok", tx
+				case <-time.After(patience):
+					errs[closee], fatal = "timeout waiting for the closee's broadcast", true
+					return
+				}
+				_, ann["cs_closer"] = lookup(cs.CloserScript)
+				_, ann["cs_closee"] = lookup(cs.CloseeScript)
+
+				mc.sm.SendEvent(ctx, &LocalSigReceived{SigMsg: *cs})
+				select {
+				case tx := <-mc.d.txs:
+					res[closer], txs[closer] = "ok", tx
+				case err := <-mc.rep.errs:
+					res[closer], errs[closer] = c17RbfClass(err), err.Error()
+					fatal, mc.dead = true, true
+				case <-time.After(patience):
+					errs[closer], fatal = "timeout waiting for the closer's broadcast", true
+				}
+			}()
+
+			seq := int64(-1)
+			for p, tx := range txs {
+				fo := lcs[p].FundingTxOut()
+				var sum int64
+				for _, o := range tx.TxOut {
+					sum += o.Value
+					owner, idx := lookup(o.PkScript)
+					if owner == "" {
+						extra[p]++
+						continue
+					}
+					has[p][owner]++
+					val[p][owner] += o.Value
+					sidx[p][owner] = idx
+				}
+				if len(tx.TxIn) != 1 || tx.TxIn[0].PreviousOutPoint != lcs[p].State().FundingOutpoint {
+					extra[p] += 100
+				}
+				nout[p], txfee[p] = int64(len(tx.TxOut)), fo.Value-sum
+				if c17Engine(fo, tx) == nil {
+					eng[p] = 1
+				}
+				seq = int64(tx.TxIn[0].Sequence)
+			}
+			txeq, raweq := 0, 0
+			if txs["A"] != nil && txs["B"] != nil {
+				txeq = bit(txs["A"].TxHash() == txs["B"].TxHash())
+				var ba, bb bytes.Buffer
+				txs["A"].Serialize(&ba)
+				txs["B"].Serialize(&bb)
+				raweq = bit(bytes.Equal(ba.Bytes(), bb.Bytes()))
+			}
+			rec["res"], rec["errs"], rec["has"], rec["val"], rec["extra"] = res, errs, has, val, extra
+			rec["txfee"], rec["eng"], rec["nout"], rec["sidx"], rec["ann"] = txfee, eng, nout, sidx, ann
+			rec["propeq"], rec["txeq"], rec["raweq"], rec["seq"] = txeq, txeq, raweq, seq
+			out.Emit(rec)
+			if fatal || res["A"] != res["B"] || (res["A"] != "ok" && res["A"] != "cantpay") {
+				break // a machine stopped (or the harness lost track): the history ends here
+			}
+		}
+		stop()
 	}
 }
